@@ -94,3 +94,10 @@ M("c12_client_conn_set_once", ["C12"],
 # ping answers skip the reset (the ping branch moved in front of it)
 M("c12_ping_before_reset", ["C12"],
   (S, RQ_RESET, "        try:\n            if msg.type != protocol.MSG_PING:\n                current_context.response_annotations = {}\n            request_flags = msg.flags\n"))
+
+# ---- results (quick tier, /repo at d2b5b67): 23 of 24 CAUGHT - by the committed replays and, checked separately with
+# replays/C12 moved away, by the Hypothesis search alone (first hit always in the first multiplex shard, 18-55 s including
+# shrinking).  c12_eq_no_reset_after_reply is MISSED and equivalent (see above).
+# Repo test-suite on the mutants (449 tests): GREEN for all except c12_client_conn_set_once (1 failed) and
+# c12_from_global_forgets_correlation_id (1 failed); in particular the three reverts of 63e5317, the plain-global context, a
+# oneway thread that never restores its context, and every client-side mutant keep the suite green.
